@@ -477,8 +477,8 @@ func E2RecordConstruction(c *core.Ctx, r *core.Report) {
 			}
 			type st struct {
 				key, cn string
-				idx    ast.Expr
-				pos    token.Pos
+				idx     ast.Expr
+				pos     token.Pos
 			}
 			var stores []st
 			for _, s := range bl.List {
@@ -565,15 +565,15 @@ func indexDistance(info *types.Info, a, b ast.Expr) (int, bool) {
 
 // decoderSite is one read/write A.d[i+k] inside a context where the command decoded at A.d[i] is known.
 type decoderSite struct {
-	ie   *ast.IndexExpr
-	path string   // path variable key
-	base string   // cursor name
-	k    int      // offset from the first value of the record (valid when !mixed)
-	set  []string // commands possible here
-	raw  int      // offset from the cursor as written
-	m    int      // the cursor stands m record lengths after the record's first value (0: at its start, 1: just past its end)
-	mixed bool    // m == 1 and the commands of the set differ in length: k depends on the command
-	unknown bool  // the cursor was moved in a way the walker does not follow between the read of cmd and this site
+	ie      *ast.IndexExpr
+	path    string   // path variable key
+	base    string   // cursor name
+	k       int      // offset from the first value of the record (valid when !mixed)
+	set     []string // commands possible here
+	raw     int      // offset from the cursor as written
+	m       int      // the cursor stands m record lengths after the record's first value (0: at its start, 1: just past its end)
+	mixed   bool     // m == 1 and the commands of the set differ in length: k depends on the command
+	unknown bool     // the cursor was moved in a way the walker does not follow between the read of cmd and this site
 }
 
 // decoderSites walks a function and reports every index A.d[i±k] made with the cursor i of a
@@ -1327,4 +1327,211 @@ func cmdSwitches(p *packages.Package, fd *ast.FuncDecl) []*ast.SwitchStmt {
 		return true
 	})
 	return out
+}
+
+// E2AccumulatorAdvance: the running arc length of a command loop is advanced by every segment.
+func E2AccumulatorAdvance(c *core.Ctx, r *core.Report) {
+	r.Rule("E2.accumulator-advance", "A loop over path commands that keeps a running position (a float local, declared outside the loop, advanced with `+=` in the command switch and compared with the entries of a sorted cut list `ts[j]`) advances it in every segment case on every path through the case, because the cuts on all later segments are located relative to it. The only paths excused are those taken under the exact exhaustion test of the cut list (`j == len(ts)`, or the else of `j < len(ts)`), after which the position is never read again. A shortcut such as `j == len(ts) || nothing-to-cut-here` that copies the segment without adding its length displaces every later cut by that length")
+	p := c.MustPkg("")
+	info := p.TypesInfo
+	n := 0
+	for _, fd := range core.AllFuncDecls(p) {
+		if fd.Body == nil || strings.HasSuffix(c.Fset.Position(fd.Pos()).Filename, "_test.go") {
+			continue
+		}
+		sws := cmdSwitches(p, fd)
+		if len(sws) == 0 {
+			continue
+		}
+		fname := "canvas." + core.FuncName(fd)
+		for _, sw := range sws {
+			// accumulators: float locals declared outside the switch, `+=`-assigned inside it
+			accs := map[types.Object]bool{}
+			ast.Inspect(sw.Body, func(m ast.Node) bool {
+				if as, ok := m.(*ast.AssignStmt); ok && as.Tok == token.ADD_ASSIGN && len(as.Lhs) == 1 {
+					if id, ok := as.Lhs[0].(*ast.Ident); ok {
+						o := core.ObjOf(info, id)
+						if v, ok := o.(*types.Var); ok && !v.IsField() && (o.Pos() < sw.Pos() || o.Pos() > sw.End()) {
+							if b, ok := v.Type().Underlying().(*types.Basic); ok && b.Info()&types.IsFloat != 0 {
+								accs[o] = true
+							}
+						}
+					}
+				}
+				return true
+			})
+			for acc := range accs {
+				// the cut list: a comparison in the switch between acc (or acc+x) and S[j]
+				var cutIdx, cutList types.Object
+				ast.Inspect(sw.Body, func(m ast.Node) bool {
+					be, ok := m.(*ast.BinaryExpr)
+					if !ok || (be.Op != token.LSS && be.Op != token.LEQ && be.Op != token.GTR && be.Op != token.GEQ) {
+						return true
+					}
+					for i, s := range []ast.Expr{be.X, be.Y} {
+						o := []ast.Expr{be.Y, be.X}[i]
+						mentions := false
+						ast.Inspect(s, func(k ast.Node) bool {
+							if id, ok := k.(*ast.Ident); ok && core.ObjOf(info, id) == acc {
+								mentions = true
+							}
+							return true
+						})
+						ie, ok := core.Unparen(o).(*ast.IndexExpr)
+						if !mentions || !ok {
+							continue
+						}
+						li, ok1 := core.Unparen(ie.X).(*ast.Ident)
+						ji, ok2 := core.Unparen(ie.Index).(*ast.Ident)
+						if ok1 && ok2 {
+							cutList, cutIdx = core.ObjOf(info, li), core.ObjOf(info, ji)
+						}
+					}
+					return true
+				})
+				if cutList == nil {
+					continue
+				}
+				// exhaustion tests
+				isLen := func(e ast.Expr) bool {
+					call, ok := core.Unparen(e).(*ast.CallExpr)
+					if !ok || len(call.Args) != 1 {
+						return false
+					}
+					f, ok := call.Fun.(*ast.Ident)
+					if !ok || f.Name != "len" {
+						return false
+					}
+					a, ok := core.Unparen(call.Args[0]).(*ast.Ident)
+					return ok && core.ObjOf(info, a) == cutList
+				}
+				isIdx := func(e ast.Expr) bool {
+					a, ok := core.Unparen(e).(*ast.Ident)
+					return ok && core.ObjOf(info, a) == cutIdx
+				}
+				// 1: cond true means exhausted; -1: cond false means exhausted; 0: neither
+				exhaust := func(cond ast.Expr) int {
+					be, ok := core.Unparen(cond).(*ast.BinaryExpr)
+					if !ok {
+						return 0
+					}
+					x, y, op := be.X, be.Y, be.Op
+					if isLen(x) && isIdx(y) {
+						x, y = y, x
+						switch op {
+						case token.LSS:
+							op = token.GTR
+						case token.GTR:
+							op = token.LSS
+						case token.LEQ:
+							op = token.GEQ
+						case token.GEQ:
+							op = token.LEQ
+						}
+					}
+					if !isIdx(x) || !isLen(y) {
+						return 0
+					}
+					switch op {
+					case token.EQL, token.GEQ:
+						return 1
+					case token.LSS, token.NEQ:
+						return -1
+					}
+					return 0
+				}
+				advances := func(st ast.Stmt) bool {
+					as, ok := st.(*ast.AssignStmt)
+					if !ok || as.Tok != token.ADD_ASSIGN || len(as.Lhs) != 1 {
+						return false
+					}
+					id, ok := as.Lhs[0].(*ast.Ident)
+					return ok && core.ObjOf(info, id) == acc
+				}
+				// must-advance over the statement list; returns the first unexcused path that does not
+				var must func(stmts []ast.Stmt) (bool, ast.Node)
+				must = func(stmts []ast.Stmt) (bool, ast.Node) {
+					var firstBad ast.Node
+					for _, st := range stmts {
+						if advances(st) {
+							return true, nil
+						}
+						switch x := st.(type) {
+						case *ast.BlockStmt:
+							if ok, _ := must(x.List); ok {
+								return true, nil
+							}
+						case *ast.IfStmt:
+							ex := exhaust(x.Cond)
+							thenOK, thenBad := must(x.Body.List)
+							if ex == 1 {
+								thenOK = true
+							}
+							elseOK, elseBad := false, ast.Node(x)
+							switch e := x.Else.(type) {
+							case *ast.BlockStmt:
+								elseOK, elseBad = must(e.List)
+								if elseBad == nil {
+									elseBad = e
+								}
+							case *ast.IfStmt:
+								elseOK, elseBad = must([]ast.Stmt{e})
+							}
+							if ex == -1 {
+								elseOK = true
+							}
+							if thenOK && elseOK {
+								return true, nil
+							}
+							if firstBad == nil {
+								if !thenOK {
+									if thenBad != nil {
+										firstBad = thenBad
+									} else {
+										firstBad = x
+									}
+								} else {
+									firstBad = elseBad
+								}
+							}
+						}
+					}
+					return false, firstBad
+				}
+				for _, cs := range sw.Body.List {
+					cc := cs.(*ast.CaseClause)
+					consts := core.CaseConsts(info, cc)
+					seg := false
+					for _, k := range consts {
+						if k != "MoveToCmd" {
+							if _, isCmd := recordLen[k]; isCmd {
+								seg = true
+							}
+						}
+					}
+					if !seg {
+						continue
+					}
+					n++
+					key := fmt.Sprintf("%s|%s|running position advanced on every path", fname, core.CaseLabel(info, cc))
+					ok, bad := must(cc.Body)
+					if ok {
+						r.OK("E2.accumulator-advance", key, c.Pos(cc.Pos()), "")
+						continue
+					}
+					where := cc.Pos()
+					what := "the case body"
+					if is, isIf := bad.(*ast.IfStmt); isIf {
+						where = is.Pos()
+						what = "the branch under `" + c.Src(is.Cond) + "`"
+					} else if bad != nil {
+						where = bad.Pos()
+					}
+					r.Fail("E2.accumulator-advance", key, c.Pos(where), fmt.Sprintf("%s can finish the segment without adding its length to `%s` while cuts of `%s` remain: every later cut is placed too early by that length", what, acc.Name(), cutList.Name()))
+				}
+			}
+		}
+	}
+	r.Count("E2.accumulator-cases", n)
+	r.Floor("E2.accumulator-cases", 4)
 }
